@@ -108,7 +108,7 @@ def find_function(text, name, masked=None):
 def loops_in(text, bo, bc, masked=None):
     """list of (kind, insert_pos) for each loop in body, in source order.
     for/while: insert_pos is just after the ')' of the header.
-    do-while: insert_pos is just after the ')' of the trailing while."""
+    do-while: insert_pos is just after the `do` keyword (where CBMC's grammar takes the clauses)."""
     m = masked or _mask(text)
     res = []
     do_stack = []
@@ -127,7 +127,7 @@ def loops_in(text, bo, bc, masked=None):
             o = k + mm.end() - 1
             c = match(m, o, "{", "}")
             pending_do_ends[c] = len(res)
-            res.append(["do", None, mo.start()])
+            res.append(["do", mo.end(), mo.start()])     # CBMC takes the contract clauses of a do-while right after `do`
         else:
             p = m.index("(", mo.end() - 0)
             q = match(m, p, "(", ")")
@@ -135,8 +135,7 @@ def loops_in(text, bo, bc, masked=None):
                 # is this the tail of a do-while?
                 prev = m[:mo.start()].rstrip()
                 if prev.endswith("}") and (len(prev) - 1) in pending_do_ends:
-                    idx = pending_do_ends.pop(len(prev) - 1)
-                    res[idx][1] = q + 1
+                    pending_do_ends.pop(len(prev) - 1)
                     continue
             res.append([kw, q + 1, mo.start()])
     return [(k, p) for k, p, s in sorted(res, key=lambda r: r[2])]
